@@ -192,12 +192,12 @@ func C06(p *core.Program, r *core.Report) {
 	mut := mutatingMethods(p)
 	r.Analysed["bpv7_mutating_methods"] = len(mut)
 	allowCalls := map[string][]string{
-		"pkg/bpv7.HopCountBlock.Increment":     {"pkg/routing.Core.forward"},
-		"pkg/bpv7.HopCountBlock.Decrement":     {"pkg/routing.Core.forward"},
-		"pkg/bpv7.BundleAgeBlock.Increment":    {"pkg/routing.BundleDescriptor.UpdateBundleAge"},
-		"pkg/bpv7.Bundle.AddExtensionBlock":    {"pkg/routing.Core.forward", "pkg/routing.BinarySpray.SenderForBundle", "pkg/routing.Core.sendBundleAttachSignature"},
-		"pkg/bpv7.BinarySprayBlock.SetCopies":  {"pkg/routing.BinarySpray.SenderForBundle"},
-		"pkg/bpv7.CanonicalBlock.SetCRCType":   {"pkg/routing.Core.sendBundleAttachSignature"},
+		"pkg/bpv7.HopCountBlock.Increment":    {"pkg/routing.Core.forward"},
+		"pkg/bpv7.HopCountBlock.Decrement":    {"pkg/routing.Core.forward"},
+		"pkg/bpv7.BundleAgeBlock.Increment":   {"pkg/routing.BundleDescriptor.UpdateBundleAge"},
+		"pkg/bpv7.Bundle.AddExtensionBlock":   {"pkg/routing.Core.forward", "pkg/routing.BinarySpray.SenderForBundle", "pkg/routing.Core.sendBundleAttachSignature"},
+		"pkg/bpv7.BinarySprayBlock.SetCopies": {"pkg/routing.BinarySpray.SenderForBundle"},
+		"pkg/bpv7.CanonicalBlock.SetCRCType":  {"pkg/routing.Core.sendBundleAttachSignature"},
 	}
 	nCalls := 0
 	for _, fn := range p.RepoFuncs() {
